@@ -99,7 +99,9 @@ def make_case(tier, seed, index):
                 "frag": rnd.choice([None, None, 2, 3, 5]),
                 # the inverter's clock in the runtime data: as the fill has it (practically never a date), a valid
                 # date, or all zeroes (an inverter that is starting up)
-                "clock": rnd.choice([None, "valid", "valid", "zero"])}
+                "clock": rnd.choice([None, "valid", "valid", "zero"]),
+                # an object that is used as constructed, without read_device_info() (model-specific tables not applied)
+                "no_info": rnd.random() < 0.12}
     if index % 5 == 1:
         ka = kb = rnd.choice(["DT", "DT1", "DTtcp", "ET205", "ET205tcp"])
         if rnd.random() < 0.5:
@@ -332,7 +334,9 @@ def execute(arg):
         if part is not None:
             mid = len(ops) // 2
             ops = ops[:mid] if part == 0 else ops[mid:]
-        if part in (None, 0):
+        if part in (None, 0) and spec.get("no_info"):
+            st["info"] = "skipped"
+        elif part in (None, 0):
             try:
                 await inv.read_device_info()
                 st["info"] = "ok"
